@@ -11,8 +11,16 @@ def build_problem(desc, circular=False):
     base = dc.CircularDnaOptimizationProblem if circular else dc.DnaOptimizationProblem
     Rec = solverrec.rec_class(base)
     np.random.seed(desc.get("np_seed", 0))
-    cons = [problems.build_spec(d) for d in desc["constraints"]]
-    objs = [problems.build_spec(d) for d in desc.get("objectives", [])]
+    if desc.get("construct_first"):
+        # specifications constructed earlier by the user on the same codon-usage table objects
+        with hard.shared_tables():
+            for d0 in desc["construct_first"]:
+                problems.build_spec(d0)
+            cons = [problems.build_spec(d) for d in desc["constraints"]]
+            objs = [problems.build_spec(d) for d in desc.get("objectives", [])]
+    else:
+        cons = [problems.build_spec(d) for d in desc["constraints"]]
+        objs = [problems.build_spec(d) for d in desc.get("objectives", [])]
     if desc.get("reuse_after"):
         # the same specification objects were used before on another (shorter) problem: natural when one list of
         # constraints is applied to several sequences; it must not influence this problem
@@ -52,6 +60,8 @@ def run_case(desc, op, fault_at=None, pre_ops=()):
         p.constraints[i].is_focus = True
     line, answer, info = solverrec.run_recorded(p, op, seq0, rt, fault_at=fault_at, focus_handles=focus)
     r = dict(line=line, answer=answer, info=info, problem=p)
+    if op == "resolve_filtered":
+        r["no_model"] = True      # the filter argument is not part of the model: oracle only
     if desc.get("circular") and not op.startswith("circ"):
         r["no_model"] = True      # direct searches on a circular problem: the views are not modelled, oracle only
     return r
